@@ -580,6 +580,9 @@ def kill_container(directory, cont, calls, kill_n=None, now=c05.NOW, timeout=5, 
     return out
 
 
+LAST_TORN = {}      # details of the last state recognised by torn_between_shard_commits (read by fanout_block_witness)
+
+
 def torn_between_shard_commits(o, ikind, shards, wl, k, snap, allowed):
     """The recorded finding C07-F2 (same root cause as C06-F6: FanoutCache.transact commits its shard transactions one after the other; there
     is no atomic commit across SQLite databases), recognised EXACTLY: the container is a FanoutCache / DjangoCache with several shards, the
@@ -625,6 +628,8 @@ def torn_between_shard_commits(o, ikind, shards, wl, k, snap, allowed):
         else:
             return None
     if 'after' in choice and 'before' in choice:
+        LAST_TORN.clear()
+        LAST_TORN.update({'shards': shards, 'commits_done': len(commits), 'choice': choice})
         return ('a transaction block over %d shards was cut by the kill between the COMMITs of its shard transactions: shards %r hold the state '
                 'after the block, shards %r the state before it (contents %r)' % (
                     shards, [i for i, c in enumerate(choice) if c == 'after'], [i for i, c in enumerate(choice) if c == 'before'],
@@ -821,10 +826,14 @@ def fanout_block_witness(ctx, res, stats):
         if full['fatal'] or not full['done']:
             return
         seen = False
+        observed = []
         for kn, e in enumerate(full['events']):
             if e != 'sql:COMMIT':
                 continue
+            LAST_TORN.clear()
             viol, info, k, d = container_kill_case(ctx, cont, wl, tmpl, kn)
+            if LAST_TORN:
+                observed.append(dict(LAST_TORN))
             shutil.rmtree(d, ignore_errors=True)
             case = {'check': 'container_kill', 'container': cont, 'workload': wl, 'kill_n': kn, 'kill_event': k.get('kill_event'), 'events_before': k['events'][-12:]}
             res.count([wl['name'], 'witness', kn], nontrivial=True)
@@ -832,6 +841,25 @@ def fanout_block_witness(ctx, res, stats):
                 seen = seen or sig.startswith('fanout_block_torn_by_kill')
                 res.violations.append(fw.Violation(sig, '%s [workload %s, killed before event %d/%d = %s]' % (desc, wl['name'], kn, full['nevents'], k.get('kill_event')), case))
         stats['fanout_block_witness_seen'] = seen
+        # which shards hold the state AFTER the block when k shard COMMITs have executed: the model's answer (model/FanoutBlock.v `committed
+        # (fan_commit_order n) k`, the order read off FanoutCache.transact, reversed by the ExitStack) against what the reopened directory shows
+        if observed and not ctx.search_mode:
+            body = ''.join('Eval vm_compute in map (committed (fan_commit_order %d) %d) (seq 0 %d).\n' % (o_['shards'], o_['commits_done'], o_['shards'])
+                           for o_ in observed)
+            rc, out = fw.coq_eval('c07fb', body, ['DCPrelude', 'FanoutBase', 'Gen_Fanout', 'Fanout', 'FanoutBlock'])
+            lists = fw.parse_eval_lists(out) if rc == 0 else []
+            if rc != 0 or len(lists) != len(observed):
+                res.disagreements.append(fw.Violation('model-eval', 'evaluation of model/FanoutBlock.v failed: ' + out[-300:], {}, 'correspondence'))
+            for o_, term in zip(observed, lists):
+                model = [t.strip() == 'true' for t in term.strip().strip('[]').split(';')]
+                res.count(['fanout-commit-order', o_['shards'], o_['commits_done']], nontrivial=True)
+                ok = len(model) == o_['shards'] and all(c == 'same' or (c == 'after') == m for c, m in zip(o_['choice'], model))
+                if ok:
+                    res.traces_validated += 1
+                else:
+                    res.disagreements.append(fw.Violation('fanout_commit_order', 'after %d shard COMMITs the reopened directory shows shards %r (per shard: state after / before '
+                                                          'the block), the model says committed = %r' % (o_['commits_done'], o_['choice'], model),
+                                                          {'check': 'fanout_commit_order', 'observed': o_, 'model': model}, 'correspondence'))
     finally:
         shutil.rmtree(tmpl, ignore_errors=True)
 
